@@ -1,12 +1,14 @@
 package os
 
 import "os"
+import "github.com/glebziz/fs_db/internal/verifhook"
 
 var (
 	ErrNotExist = os.ErrNotExist
 )
 
 func MkdirAll(path string, perm os.FileMode) error {
+	verifhook.Mut("mkdir", path)
 	return os.MkdirAll(path, perm)
 }
 
@@ -15,6 +17,7 @@ func ReadDir(name string) ([]os.DirEntry, error) {
 }
 
 func Create(name string) (File, error) {
+	verifhook.Mut("create", name)
 	f, err := os.Create(name)
 	return File{f}, err
 }
@@ -25,5 +28,6 @@ func Open(name string) (File, error) {
 }
 
 func Remove(name string) error {
+	verifhook.Mut("remove", name)
 	return os.Remove(name)
 }
